@@ -277,7 +277,7 @@ class Curve(SplineObject):
         if amount < 0:
             raise ValueError('Raise order requires a non-negative parameter')
         elif amount == 0:
-            return
+            return self
 
         # create the new basis
         newBasis = self.bases[0].raise_order(amount)
